@@ -1,6 +1,8 @@
 package checks
 
 import (
+	"bytes"
+	"crypto/sha256"
 	"fmt"
 	"os"
 	"path/filepath"
@@ -338,13 +340,55 @@ func c08Collect(total *rt.Report) {
 	}
 }
 
+// c08Copy runs concurrent CopyFile / CopyFileHash / HashFile calls on distinct files of one shared file system: the
+// helpers share a pool of buffers, each copy must end with its own bytes and digest.
+func c08Copy(c *rt.Ctx, fsType string, rep int, calls *c08Calls) {
+	v := newBase(fsType)
+	_ = v.MkdirAll("/w", 0o755)
+	const G = 6
+	var wg sync.WaitGroup
+	for g := 0; g < G; g++ {
+		content := bytes.Repeat([]byte{byte('A' + g)}, 20000+g*13000)
+		src := fmt.Sprintf("/w/src%d", g)
+		_ = v.WriteFile(src, content, 0o644)
+		wg.Add(1)
+		go func(g int) {
+			defer wg.Done()
+			var view avfs.VFS = v
+			if m, ok := v.(*memfs.MemFS); ok {
+				if s, err := m.Sub("/"); err == nil {
+					view = s
+				}
+			}
+			want := sha256.Sum256(content)
+			for i := 0; i < 6; i++ {
+				dst := fmt.Sprintf("/w/dst%d-%d", g, i)
+				sum, err := avfs.CopyFileHash(view, view, dst, src, sha256.New())
+				calls.add("CopyFileHash")
+				got, rerr := view.ReadFile(dst)
+				if err != nil || rerr != nil || !bytes.Equal(got, content) || !bytes.Equal(sum, want[:]) {
+					c08Disagree(c, "copy|"+fsType+"|concurrent-copies-interfere", fmt.Sprintf("%s: %d goroutines copying distinct files concurrently: copy %d of goroutine %d ends with %d bytes (want %d), digest ok=%v, errors %v / %v", fsType, G, i, g, len(got), len(content), bytes.Equal(sum, want[:]), err, rerr), nil)
+					return
+				}
+				if h, herr := avfs.HashFile(view, src, sha256.New()); herr != nil || !bytes.Equal(h, want[:]) {
+					c08Disagree(c, "copy|"+fsType+"|concurrent-hash-wrong", fmt.Sprintf("%s: HashFile of goroutine %d returns a wrong digest (%v) while other goroutines copy", fsType, g, herr), nil)
+					return
+				}
+				calls.add("HashFile")
+			}
+		}(g)
+	}
+	wg.Wait()
+	_ = rep
+}
+
 func init() {
 	register(&Check{
 		Prop:   "C08",
 		Shards: shards(8, 16),
 		Meta: func(tier string) rt.Meta {
 			return rt.Meta{Level: "exploration", MinEvals: 10000, MinDistinct: 20,
-				Rule:        "the harness is built with -race and every workload runs free on all cores with a seeded yield at a fraction of the lock sites (verif hook): (1) 2-16 goroutines issuing random calls of all ~40 kinds (incl. Rename, Link, Symlink, Truncate, Chmod, Chown, Chtimes, ReadDir/WalkDir while mutating, temp creation, handle I/O) over 3 names in a shared tree - MemFS through per-goroutine Sub views with different users and umasks and their own cwd, one shared OrefaFS; (2) six goroutines sharing ONE handle and each owning another handle on the same file, plus a shared directory handle, while names are created and removed; (3) one shared MemIdm under add/del/lookup; (4) visibility: writers create names carrying their id and publish a counter after the call returned, readers read the counter before Stat/ReadDir/ReadFile and must see the name (unique names make the log unambiguous). Race reports are collected with GORACE=halt_on_error=0 log_path=..., counted from the log files and de-duplicated by the pair of innermost avfs functions; a runtime fatal error (concurrent map access) in a worker is a violation. Signature = workload | call kind; evaluations = calls executed; non-trivial = call kinds executed concurrently with others on the shared tree.",
+				Rule:        "the harness is built with -race and every workload runs free on all cores with a seeded yield at a fraction of the lock sites (verif hook): (1) 2-16 goroutines issuing random calls of all ~40 kinds (incl. Rename, Link, Symlink, Truncate, Chmod, Chown, Chtimes, ReadDir/WalkDir while mutating, temp creation, handle I/O) over 3 names in a shared tree - MemFS through per-goroutine Sub views with different users and umasks and their own cwd, one shared OrefaFS; (2) six goroutines sharing ONE handle and each owning another handle on the same file, plus a shared directory handle, while names are created and removed; (3) one shared MemIdm under add/del/lookup; (3b) six goroutines copying and hashing distinct files concurrently (CopyFileHash/HashFile share a pool of buffers): every copy ends with its own bytes and digest; (4) visibility: writers create names carrying their id and publish a counter after the call returned, readers read the counter before Stat/ReadDir/ReadFile and must see the name (unique names make the log unambiguous). Race reports are collected with GORACE=halt_on_error=0 log_path=..., counted from the log files and de-duplicated by the pair of innermost avfs functions; a runtime fatal error (concurrent map access) in a worker is a violation. Signature = workload | call kind; evaluations = calls executed; non-trivial = call kinds executed concurrently with others on the shared tree.",
 				Assumptions: []string{"only races of the schedules that ran are seen (inherent to dynamic race detection)", "sharing one OrefaFS *view* among goroutines that Chdir/SetUser it is not exercised: those write unsynchronised per-view fields and are not part of the documented use"}}
 		},
 		CrashIsViolation: true,
@@ -379,6 +423,8 @@ func init() {
 				c08SharedHandle(c, "MemFS", rep, calls)
 				c08SharedHandle(c, "OrefaFS", rep, calls)
 				c08Idm(c, rep, calls)
+				c08Copy(c, "MemFS", rep, calls)
+				c08Copy(c, "OrefaFS", rep, calls)
 				c08Visibility(c, "MemFS", rep)
 				c08Visibility(c, "OrefaFS", rep)
 			}
